@@ -62,6 +62,34 @@ contains
     v(1) = n
     w = n
   end subroutine pvec
+  subroutine cfill(str)
+    character(len=*), intent(out) :: str
+    str = "XYZ"
+  end subroutine cfill
+  subroutine cio(str, n)
+    character(len=*), intent(inout) :: str
+    integer, intent(in) :: n
+    str(1:1) = achar(65 + n)
+  end subroutine cio
+  subroutine cin(str, n)
+    character(len=*), intent(in) :: str
+    integer, intent(out) :: n
+    n = len_trim(str)
+  end subroutine cin
+  pure subroutine pcfill(str, n)
+    character(len=*), intent(out) :: str
+    integer, intent(in) :: n
+    str = achar(65 + n)
+  end subroutine pcfill
+  pure integer function pclen(str)
+    character(len=*), intent(in) :: str
+    pclen = len_trim(str)
+  end function pclen
+  integer function fcside(str)
+    character(len=*), intent(inout) :: str
+    str(1:1) = "Q"
+    fcside = 1
+  end function fcside
   subroutine p()
     use extm, only: epsub
 """
@@ -71,7 +99,7 @@ end module c11m
 """
 
 EXTRA_DECLS = ["    type(tt) :: s, sa(5)", "    type(outer_t) :: fs(-14:26), os", "    integer, allocatable :: z(:), w(:,:)", "    real :: x, y(10)",
-               "    integer :: vals(8), cnt"]
+               "    integer :: vals(8), cnt", "    character(len=8) :: names(-14:26), stamp(5), ch"]
 
 
 class Gen(minif.BodyGen):
@@ -123,6 +151,27 @@ class Gen(minif.BodyGen):
             return f"fside({r.choice(self.scalars + [self.arrays1[0] + '(' + self.subscript(live) + ')', self.sref(live)])})"
         return super().ref(live, depth)
 
+    def cbd(self, live):
+        """a designator the frontend keeps as an expression CodeBlock: sub-string of a character array element"""
+        r = self.rng
+        arr = r.choice(["names", "stamp"])
+        lo = r.choice(["1", r.choice(self.scalars), self.sub(live)])
+        hi = r.choice([str(r.randint(1, 8)), r.choice(self.scalars), f"{lo} + {r.randint(0, 2)}", ""])
+        if lo == "1" and r.random() < 0.3:
+            lo = ""
+        return f"{arr}({self.sub(live)})({lo}:{hi})"
+
+    def cbv(self, live):
+        """an integer-valued expression containing an expression CodeBlock"""
+        r = self.rng
+        a = r.choice(self.arrays1)
+        v = r.choice(live + self.scalars)
+        return r.choice([lambda: f"ichar({self.cbd(live)})", lambda: f"len_trim({self.cbd(live)})",
+                         lambda: f"pclen({self.cbd(live)})", lambda: f"fcside({self.cbd(live)})",
+                         lambda: f"index({self.cbd(live)}, ch)", lambda: f"len({self.cbd(live)})",
+                         lambda: f"sum((/ ({a}({v} + i9), i9 = 1, {r.choice(self.scalars)}) /))",
+                         lambda: f"maxval((/ {v}, {a}({self.sub(live)}), {r.randint(0, 5)} /))"])()
+
     def lhs(self, live, allow_scalar=True):
         r = self.rng
         x = r.random()
@@ -147,6 +196,8 @@ class Gen(minif.BodyGen):
 
     def loop_header(self, v, live):
         r = self.rng
+        if r.random() < 0.08:
+            return f"do {v} = 1, {self.cbv(live)}"
         if r.random() < 0.2:
             return f"do {v} = {self.sref(live)}, {r.choice([self.sref(live), str(r.randint(3, 8))])}"
         return super().loop_header(v, live)
@@ -192,6 +243,28 @@ class Gen(minif.BodyGen):
         forms.append(lambda: f"call pinc({self.arg(live)}, {self.expr(live, 1)})")
         forms.append(lambda: f"call pvec({self.expr(live, 1)}, {self.sref(live, scalar=False)}, {self.arg(live)})")
         forms.append(lambda: f"call pvec({s}, {a}, {self.sref(live)})")
+        # expression CodeBlocks as actual arguments (user routines with every intent, pure subroutine, external routine,
+        # intrinsic subroutines), in conditions, subscripts, right-hand sides, loop bounds, inquiry arguments
+        forms += [
+            lambda: f"call cfill({self.cbd(live)})",
+            lambda: f"call cio({self.cbd(live)}, {self.expr(live, 1)})",
+            lambda: f"call cin({self.cbd(live)}, {self.arg(live)})",
+            lambda: f"call cin(n={s}, str={self.cbd(live)})",
+            lambda: f"call pcfill({self.cbd(live)}, {s})",
+            lambda: f"call ext({self.cbd(live)}, {self.arg(live)})",
+            lambda: f"call date_and_time(date={self.cbd(live)})",
+            lambda: f"call date_and_time({self.cbd(live)}, {self.cbd(live)})",
+            lambda: f"call get_command({self.cbd(live)}, {s})",
+            lambda: f"call get_environment_variable(ch, {self.cbd(live)})",
+            lambda: f"call sout({self.arg(live)}, {self.cbv(live)})",
+            lambda: f"if ({self.cbd(live)} == ch) {a}({self.subscript(live)}) = {self.cbv(live)}",
+            lambda: f"if ({self.cbv(live)} > {r.randint(0, 3)}) call cfill({self.cbd(live)})",
+            lambda: f"{a}({self.cbv(live)}) = {self.expr(live, 1)}",
+            lambda: f"{self.lhs(live)} = {self.cbv(live)} + {self.expr(live, 1)}",
+            lambda: f"{s} = {self.cbv(live)}",
+            lambda: f"{a}({r.randint(0, 3)}:{r.randint(4, 6)}) = (/ ({s} * i9, i9 = 1, 3) /)",
+            lambda: f"ch = {self.cbd(live)}",
+        ]
         forms.append(lambda: f"write(*,*) {self.arg(live)}, {s}")
         forms.append(lambda: f"read(*,*) {r.choice([s, self.sref(live), a + '(' + self.subscript(live) + ')'])}")
         forms.append(lambda: f"if ({self.cond(live)}) return")
@@ -224,5 +297,5 @@ def gen_source(rng, nstmts=5, pure_sub=False):
     g = Gen(rng, scalars, arrays1, arrays2, loopvars, pure_sub=pure_sub)
     body = g.block([], nstmts, ind="    ")
     prog = minif.Prog(scalars, arrays1, arrays2, loopvars, [], body)
-    decls = ["  " + d for d in prog.decls()] + EXTRA_DECLS
+    decls = ["  " + d for d in prog.decls()] + EXTRA_DECLS + ["    integer :: i9"]
     return HEADER + "\n".join(decls) + "\n" + "\n".join(body) + "\n" + FOOTER
